@@ -154,6 +154,7 @@ let judge_f op a got =
   let got = over got in
   let wb nb =
     let nb = zi nb in
+    if x () = Inf then judge_call (k FoTotal Inf one Zar.zero) got else
     let spec_t = if Zar.sign prec = 0 then Zar.zero else Zar.one in
     let asis_t = if Zar.sign prec = 0 || auto_prec_zero b nb prec then Zar.zero else Zar.one in
     judge_call ~alt:(Some (TWithBasePrecisionZero, KWithBase (b, nb, asis_t, x ()))) (KWithBase (b, nb, spec_t, x ())) got
@@ -184,7 +185,9 @@ let judge_f op a got =
   else if op = "with_base_prec2" then judge_call (KWithBase (b, zi 2, n2 (), x ())) got
   else if mem op [ "to_f32"; "to_f64" ] then (match x () with Fin (_, e) when Zar.numbits e > 61 -> judge_call (k FoTotal (x ()) one Zar.zero) got | _ -> judge_call (KToPrim (b, x ())) got)
   else if mem op [ "cmp"; "sum" ] then judge_call (k FoTotal (x ()) (y ()) Zar.zero) got
-  else if mem op [ "convert_int"; "from_parts"; "from_f32"; "from_f64"; "from_rbig" ] then judge_call (k FoTotal one one Zar.zero) got
+  else if op = "from_parts" then judge_call (k FoTotal (x ()) one Zar.zero) got
+  else if op = "ulp" && Zar.sign prec = 0 then judge_call (KToFloat prec) got   (* "Panics if the precision of the number is 0" *)
+  else if mem op [ "convert_int"; "from_f32"; "from_f64"; "from_rbig" ] then judge_call (k FoTotal one one Zar.zero) got
   else judge_call (k FoTotal (x ()) one Zar.zero) got
 
 (* ---------------------------------------------------------------- rationals *)
